@@ -694,7 +694,7 @@ end bg
 
 /-- A small instance of the server: initialisation writes the settings and starts the handler
     thread; the handler reads the settings under RLock, starts a refresh and a publish
-    goroutine and re-reads; refresh writes the settings under Lock; publish reads the workspace
+    goroutine and re-reads; refresh writes the settings under Lock (inside refreshMu); publish reads the workspace
     caches under Workspace.mu and the loader cache under Loader.mu nested inside. -/
 def demoPool : Pool Loc Lock where
   prog := fun t => match t with
@@ -705,8 +705,9 @@ def demoPool : Pool Loc Lock where
             .acq .Workspace_mu .excl, .acc ⟨.Workspace_cachedAccounts, .write, false, false⟩,
             .acq .Loader_mu .shared, .acc ⟨.Loader_cache, .read, false, false⟩, .rel .Loader_mu,
             .rel .Workspace_mu]
-    | 2 => [.acq .Server_settingsMu .excl, .acc ⟨.Server_settings, .write, false, false⟩,
-            .rel .Server_settingsMu]
+    | 2 => [.acq .Server_refreshMu .excl,
+            .acq .Server_settingsMu .excl, .acc ⟨.Server_settings, .write, false, false⟩,
+            .rel .Server_settingsMu, .rel .Server_refreshMu]
     | 3 => [.acq .Workspace_mu .shared, .acc ⟨.Workspace_cachedAccounts, .read, false, false⟩,
             .rel .Workspace_mu,
             .acq .Loader_mu .excl, .acc ⟨.Loader_cache, .write, false, false⟩, .rel .Loader_mu]
